@@ -175,6 +175,12 @@ def check(model: Model, tier: str):
     obs.append(Ob("E4-EPSFLOW", "_extras.reshape:E4-EPSFLOW:final-round", OK if okr else VIOLATED, model.where(f), "return TT(cores_new).round(eps)",
                   "one final rounding with the caller's eps" if okr else "the final rounding does not use the caller's eps"))
     obs += rule_gauge(model)
+    from ..adjoint import rule_adjoint, self_fixture
+    obs += rule_adjoint(model, [model.func("_extras.permute"), model.func("_extras.reshape")])
+    fx = self_fixture()
+    okfx = any(o.status == VIOLATED for o in fx["p"]) and all(o.status == OK for o in fx["q"])
+    obs.append(Ob("ADJOINT", "fixture:ADJOINT:positive-example", OK if okfx else ERROR, "ttsa/adjoint.py", "self_fixture",
+                  "the built-in positive example is flagged and its conjugated twin is not" if okfx else "the ADJOINT rule no longer recognises its positive example"))
     eng = Effects(model)
     for fn in ("_extras.reshape", "_extras.permute", "_tt_base.TT.to_qtt", "_tt_base.TT.qtt_to_tens"):
         fo = model.func(fn)
